@@ -124,6 +124,38 @@ def job(j):
         return (cid, 'failed-flagged', '', res)
     return (cid, 'ok', '', res)
 
+def build_hiino(name, feat):
+    """runtime base whose interesting objects have their inodes in the LAST groups (see main); returns the image bytes or None"""
+    DBG = tool('debugfs')
+    if True:
+        if True:
+            p = os.path.join(scratch(), name + '.img')
+            rc, out = run([tool('mke2fs'), '-q', '-F', '-t', 'ext4', '-O', '^has_journal,^resize_inode,^flex_bg,' + feat, '-b', '1024', '-g', '256', '-N', '128', '-I', '256',
+                           '-U', '6b33f586-a183-4383-921d-30ab132db9b9', '-E', 'hash_seed=a0c4b9f1-7e1d-4c6b-8f4e-9d2f1b3c5a70', p, str(8 * 256 + 1)], timeout=120)
+            if rc != 0: log('C08: runtime base %s: mke2fs exit %s' % (name, rc)); return None
+            src = os.path.join(scratch(), 'hi.payload'); open(src, 'wb').write(bytes((k * 7 + 3) & 0xff for k in range(5000)))
+            frag = os.path.join(scratch(), 'hi.frag')
+            with open(frag, 'wb') as f:
+                for i in range(6): f.seek(2 * i * 1024); f.write(bytes((k + i) & 0xff for k in range(1024)))
+            cmds = ['mknod /p%d p' % n for n in range(12, 113)]             # inodes 12..112: groups 0..6 (16 inodes per group)
+            cmds += ['mkdir /d', 'write %s /d/data' % src, 'symlink /d/sl %s' % ('s' * 90), 'ea_set /d/data user.big %s' % ('B' * 300), 'ea_set /d/sl user.s ss',
+                     'mkdir /d/sub', 'write %s /d/sub/frag' % frag, 'ea_set /d user.dir dv']
+            cmds += ['mkdir /hx'] + ['expand_dir /hx'] * 4 + ['ln /p12 /hx/%s_%03d' % ('k' * 40, i) for i in range(70)] + ['sif /p12 links_count 71', 'mkdir /links']
+            sp = os.path.join(scratch(), 'hi.dbg'); open(sp, 'w').write('\n'.join(cmds) + '\n')
+            run([DBG, '-w', '-f', sp, p], timeout=120)
+            rc, out = run([E2FSCK, '-fyD', p], timeout=120)            # indexes /hx (and packs every directory), so the loose blocks are added afterwards
+            cmds = ['expand_dir /d', 'expand_dir /links'] + ['ln /p13 /links/%s_%02d' % ('l' * 40, i) for i in range(30)] + ['sif /p13 links_count 31']
+            cmds += ['rm /p%d' % n for n in range(20, 113) if n % 16 != 5]      # a few fillers stay in every group
+            open(sp, 'w').write('\n'.join(cmds) + '\n')
+            run([DBG, '-w', '-f', sp, p], timeout=120)
+            if rc not in (0, 1) or run([E2FSCK, '-fn', p], timeout=120)[0] != 0:
+                log('C08: runtime base %s not usable' % name); return None
+            d_ = open(p, 'rb').read(); im_ = Image(d_)
+            hi_ = [n for n, ino, ft, l in im_.read_dir(im_.inode(2)) if n in (b'd', b'hx', b'links') and ino > 64]
+            if len(hi_) != 3: log('C08: runtime base %s: directories did not land in the last groups (%s)' % (name, hi_)); return None
+            fsweep._cache[name] = open(p, 'rb').read(); os.unlink(p)
+            return fsweep._cache[name]
+
 def main(tier, only=None):
     global RESIZE2FS, E2FSCK, IOTRACE, TREES
     ck = Check('C08', tier, 'model_checking')
@@ -158,32 +190,7 @@ def main(tier, only=None):
     if not only:
         DBG = tool('debugfs')
         for name, feat in ((('hiino_csum', 'metadata_csum,64bit'),) if quick else (('hiino_csum', 'metadata_csum,64bit'), ('hiino', '^metadata_csum,uninit_bg'), ('hiino_inline', 'metadata_csum,inline_data'))):
-            p = os.path.join(scratch(), name + '.img')
-            rc, out = run([tool('mke2fs'), '-q', '-F', '-t', 'ext4', '-O', '^has_journal,^resize_inode,^flex_bg,' + feat, '-b', '1024', '-g', '256', '-N', '128', '-I', '256',
-                           '-U', '6b33f586-a183-4383-921d-30ab132db9b9', '-E', 'hash_seed=a0c4b9f1-7e1d-4c6b-8f4e-9d2f1b3c5a70', p, str(8 * 256 + 1)], timeout=120)
-            if rc != 0: log('C08: runtime base %s: mke2fs exit %s' % (name, rc)); continue
-            src = os.path.join(scratch(), 'hi.payload'); open(src, 'wb').write(bytes((k * 7 + 3) & 0xff for k in range(5000)))
-            frag = os.path.join(scratch(), 'hi.frag')
-            with open(frag, 'wb') as f:
-                for i in range(6): f.seek(2 * i * 1024); f.write(bytes((k + i) & 0xff for k in range(1024)))
-            cmds = ['mknod /p%d p' % n for n in range(12, 113)]             # inodes 12..112: groups 0..6 (16 inodes per group)
-            cmds += ['mkdir /d', 'write %s /d/data' % src, 'symlink /d/sl %s' % ('s' * 90), 'ea_set /d/data user.big %s' % ('B' * 300), 'ea_set /d/sl user.s ss',
-                     'mkdir /d/sub', 'write %s /d/sub/frag' % frag, 'ea_set /d user.dir dv']
-            cmds += ['mkdir /hx'] + ['expand_dir /hx'] * 4 + ['ln /p12 /hx/%s_%03d' % ('k' * 40, i) for i in range(70)] + ['sif /p12 links_count 71', 'mkdir /links']
-            sp = os.path.join(scratch(), 'hi.dbg'); open(sp, 'w').write('\n'.join(cmds) + '\n')
-            run([DBG, '-w', '-f', sp, p], timeout=120)
-            rc, out = run([E2FSCK, '-fyD', p], timeout=120)            # indexes /hx (and packs every directory), so the loose blocks are added afterwards
-            cmds = ['expand_dir /d', 'expand_dir /links'] + ['ln /p13 /links/%s_%02d' % ('l' * 40, i) for i in range(30)] + ['sif /p13 links_count 31']
-            cmds += ['rm /p%d' % n for n in range(20, 113) if n % 16 != 5]      # a few fillers stay in every group
-            open(sp, 'w').write('\n'.join(cmds) + '\n')
-            run([DBG, '-w', '-f', sp, p], timeout=120)
-            if rc not in (0, 1) or run([E2FSCK, '-fn', p], timeout=120)[0] != 0:
-                log('C08: runtime base %s not usable' % name); continue
-            d_ = open(p, 'rb').read(); im_ = Image(d_)
-            hi_ = [n for n, ino, ft, l in im_.read_dir(im_.inode(2)) if n in (b'd', b'hx', b'links') and ino > 64]
-            if len(hi_) != 3: log('C08: runtime base %s: directories did not land in the last groups (%s)' % (name, hi_)); continue
-            fsweep._cache[name] = open(p, 'rb').read(); os.unlink(p)
-            bases = bases + [name]
+            if build_hiino(name, feat) is not None: bases = bases + [name]
     # runtime-built bases whose inodes are LOW but whose xattr blocks, data blocks, directory blocks and slow-symlink blocks sit in the LAST groups (the low groups
     # were full of ballast when they were allocated): a shrink relocates the blocks while the inodes keep their numbers
     if not only:
